@@ -8,10 +8,10 @@ Definition mkrs (a b c : rule) : ruleset := {| rs_primary := a; rs_recovery := b
 Definition mkp (rs : ruleset) (d : option N) : proposal := {| p_rules := rs; p_delay := d |}.
 
 (* what is read back from the ledger after every call: the 5-tuple, the role assignment, whether
-   the controlled asset is still in the vault *)
+   the controlled asset is still in the vault, the balance of the v2 XRD fee vault (None = no vault) *)
 Record obs := mkobs {
   o_locked : bool; o_prim_rec : option proposal; o_prim_wd : bool; o_rec_rec : rec_attempt; o_rec_wd : bool;
-  o_roles : ruleset; o_badge : bool }.
+  o_roles : ruleset; o_badge : bool; o_fee : option Z }.
 
 Definition optp_eqb (a b : option proposal) : bool :=
   match a, b with Some x, Some y => proposal_eqb x y | None, None => true | _, _ => false end.
@@ -27,7 +27,8 @@ Definition obs_ok (c : controller) (o : obs) : bool :=
   Bool.eqb (s_locked s) (o_locked o) && optp_eqb (s_prim_rec s) (o_prim_rec o)
   && Bool.eqb (s_prim_wd s) (o_prim_wd o) && rec_eqb (s_rec_rec s) (o_rec_rec o)
   && Bool.eqb (s_rec_wd s) (o_rec_wd o) && ruleset_eqb (c_roles c) (o_roles o)
-  && Bool.eqb (c_badge c) (o_badge o).
+  && Bool.eqb (c_badge c) (o_badge o)
+  && match c_fee c, o_fee o with Some x, Some y => Z.eqb x y | None, None => true | _, _ => false end.
 
 Definition proposer_eqb (a b : proposer) : bool :=
   match a, b with PPrimary, PPrimary | PRecovery, PRecovery => true | _, _ => false end.
